@@ -115,6 +115,10 @@ impl<R: Read + Seek> ReadBox<&mut R> for MetaBox {
             // Get box header.
             let header = BoxHeader::read(reader)?;
             let BoxHeader { name, size: s } = header;
+            // Break if size zero BoxHeader, which can result in dead-loop.
+            if s == 0 {
+                break;
+            }
             if s > size {
                 return Err(Error::InvalidData(
                     "meta box contains a box with a larger size than it",
@@ -150,6 +154,10 @@ impl<R: Read + Seek> ReadBox<&mut R> for MetaBox {
                     // Get box header.
                     let header = BoxHeader::read(reader)?;
                     let BoxHeader { name, size: s } = header;
+                    // Break if size zero BoxHeader, which can result in dead-loop.
+                    if s == 0 {
+                        break;
+                    }
                     if s > size {
                         return Err(Error::InvalidData(
                             "meta box contains a box with a larger size than it",
@@ -178,6 +186,10 @@ impl<R: Read + Seek> ReadBox<&mut R> for MetaBox {
                     // Get box header.
                     let header = BoxHeader::read(reader)?;
                     let BoxHeader { name, size: s } = header;
+                    // Break if size zero BoxHeader, which can result in dead-loop.
+                    if s == 0 {
+                        break;
+                    }
                     if s > size {
                         return Err(Error::InvalidData(
                             "meta box contains a box with a larger size than it",
